@@ -640,7 +640,7 @@ static void generate(Rng &rng, const Opts &o, std::vector<std::string> &lines) {
     const long nmax = o.thorough() ? 8 : 6;
     for (long k = 0; k < N; ++k) {
         Line l;
-        int which = (int)rng.range(0, 35);
+        int which = (int)rng.range(0, 31);
         long n = rng.range(1, nmax);
         if (rng.coin(1, 40)) n = 0;
         if (which < 5) { l << "solve_gmres"; put_prm(rng, l, S_GMRES, 4); put_call2(rng, l, n); }
@@ -653,14 +653,6 @@ static void generate(Rng &rng, const Opts &o, std::vector<std::string> &lines) {
             put_raw(rng, l, nn, prm_s(pl.get()));
         }
         else if (which < 22) { l << "solve_bicgstabl"; put_prm(rng, l, S_BICGSTABL, 6); put_call2(rng, l, n); }
-        else if (which >= 32) {                                    // LGMRES(M,K) vs GMRES(M+K): maxiter mostly within one cycle
-            l << "lgmres_vs_gmres";
-            long K = rng.range(0, 2), M = rng.range(1, 3 - (K > 1 ? 1 : 0));
-            long mx = rng.coin(3, 4) ? rng.range(1, std::min<long>(M + K, 4)) : rng.range(0, 4);
-            l << (rng.coin() ? "left" : "right") << M << K << rng.coin();
-            if (rng.coin(2, 3)) l << mx << Q(0) << Q(0) << 0L; else l << mx << gen_tol(rng) << gen_abstol(rng) << rng.coin(1, 6);
-            put_call2(rng, l, n);
-        }
         else {
             int solver = which < 24 ? S_GMRES : which < 25 ? S_FGMRES : which < 28 ? S_LGMRES : which < 30 ? S_IDRS : S_BICGSTABL;
             l << (std::string("hist_") + solver_name(solver));
@@ -682,6 +674,19 @@ static void generate(Rng &rng, const Opts &o, std::vector<std::string> &lines) {
             if (solver == S_IDRS) put_raw(rng, l, n, prm_s(pl.get()));
             for (auto &s : calls) l << s;
         }
+        lines.push_back(l.get());
+    }
+    // LGMRES(M,K) vs GMRES(M+K) (C05f): generated AFTER all other cases so that their stream is unchanged; maxiter mostly
+    // within one cycle, thresholds mostly 0
+    for (long k = 0; k < N / 8; ++k) {
+        Line l;
+        long n = rng.range(1, nmax);
+        l << "lgmres_vs_gmres";
+        long K = rng.range(0, 2), M = rng.range(1, 3 - (K > 1 ? 1 : 0));
+        long mx = rng.coin(3, 4) ? rng.range(1, std::min<long>(M + K, 4)) : rng.range(0, 4);
+        l << (rng.coin() ? "left" : "right") << M << K << rng.coin();
+        if (rng.coin(2, 3)) l << mx << Q(0) << Q(0) << 0L; else l << mx << gen_tol(rng) << gen_abstol(rng) << rng.coin(1, 6);
+        put_call2(rng, l, n);
         lines.push_back(l.get());
     }
 }
